@@ -771,9 +771,11 @@ def density_scenario(prim, boundary):
     return f
 
 
-def normal_direction_summary(prim):
+def normal_direction_summary(prim, exact_log=None):
     """contract of <Polygon>Boundary._get_normal_direction(direction): rows e with |e| = 1, e . d = 0 and fixed
-    orientation (parallelogram: cross(d, e) > 0, triangle: cross(d, e) < 0); requires d != 0"""
+    orientation (parallelogram: cross(d, e) > 0, triangle: cross(d, e) < 0); requires d != 0.
+    With exact_log (a list) the closed form is used instead: e = (dy, -dx) / L with L > 0, L*L = |d|^2 (triangle;
+    proved by the helper scenario's exact-form obligations); every call is logged as row -> (dx, dy, L)."""
     from tpv.core import STensor
     from tpv.tlib import Tensor
 
@@ -795,9 +797,22 @@ def normal_direction_summary(prim):
             flat = [zint(c) for c in row]
             ex, ey = (fx(*flat), fy(*flat)) if nf else (fx, fy)
             ddx, ddy = zreal(dv.at([row, (0,)])), zreal(dv.at([row, (1,)]))
-            I.ctx.axiom(z3.And(ex * ex + ey * ey == 1, ex * ddx + ey * ddy == 0, sign * (ddx * ey - ddy * ex) > 0))
+            if exact_log is not None:
+                L = fL(*flat) if nf else fL
+                I.ctx.axiom(z3.And(L > 0, L * L == ddx * ddx + ddy * ddy, ex * L == ddy, ey * L == -ddx))
+            else:
+                I.ctx.axiom(z3.And(ex * ex + ey * ey == 1, ex * ddx + ey * ddy == 0, sign * (ddx * ey - ddy * ex) > 0))
             return core.select_comp(idx[1][0], 2, [lambda: ex, lambda: ey])
 
+        if exact_log is not None:
+            fL = z3.Function(core.fresh_name("ndL"), *([z3.IntSort()] * nf + [z3.RealSort()])) if nf else z3.Real(core.fresh_name("ndL"))
+
+            def at_row(row):
+                flat = [zint(c) for c in row][:nf]
+                ex, ey = (fx(*flat), fy(*flat)) if nf else (fx, fy)
+                return zreal(dv.at([tuple(row[:nf]), (0,)])), zreal(dv.at([tuple(row[:nf]), (1,)])), (fL(*flat) if nf else fL), ex, ey
+
+            exact_log.append(at_row)
         return Tensor(STensor([dv.shape[0], Dim([2])], fn_, "real"))
 
     return summary
@@ -818,6 +833,10 @@ def normal_direction_helper_scenario(prim):
         S.ensure("unit-length", ex * ex + ey * ey == 1, hy)
         S.ensure("perpendicular-to-the-direction", ex * dx + ey * dy == 0, hy)
         S.ensure("fixed-orientation", sign * (dx * ey - dy * ex) > 0, hy)
+        if prim.name == "triangle":
+            L = tlib.sqrt_term(z3.simplify(dx * dx + dy * dy))
+            S.ensure("exact-form-x", ex * L == dy, hy)
+            S.ensure("exact-form-y", ey * L == -dx, hy)
 
     f.__name__ = f"{prim.name}_normal_direction_helper"
     return f
@@ -832,7 +851,8 @@ def polygon_normal_scenario(prim):
         # requires: every point lies exactly on the boundary of its own parameter row
         X = S.tensor("X", [N, 2], on_access=lambda idx, v: S.ctx.axiom(z3.Implies(z3.And(zint(idx[0][0]) >= 0, zint(idx[0][0]) < zint(N)), prim.onbd(raw(idx[0]), h.vals(idx[0])))))
         pts = S.new(POINTS, X, S.new(prim.space, "x"))
-        S.use_contract(prim.bcls + "._get_normal_direction", normal_direction_summary(prim))
+        exact = [] if prim.name == "triangle" else None
+        S.use_contract(prim.bcls + "._get_normal_direction", normal_direction_summary(prim, exact))
         bd = S.getattr(h.dom, "boundary")
         cells = []
         S.on_call(prim.bcls + "._add_local_normal_vector", lambda rec: cells.append(rec["normals"]))
@@ -873,6 +893,22 @@ def polygon_normal_scenario(prim):
             return out
 
         touch = lambda q: [zreal(X.val.at([q[0], (0,)])) == raw(q[0])[0]]
+        if exact is not None:
+            # pure lemma (strict Cauchy-Schwarz in the plane, from Lagrange's identity), instantiated for every pair of
+            # edge directions of the generic row: non-parallel edges have L_e * L_f > |d_e . d_f|
+            cs = lambda ax, ay, bx, by, La, Lb: z3.Implies(z3.And(La > 0, Lb > 0, La * La == ax * ax + ay * ay, Lb * Lb == bx * bx + by * by, ax * by - ay * bx != 0), z3.And(La * Lb > ax * bx + ay * by, La * Lb > -(ax * bx + ay * by)))
+            S.lemma_schema("strict-cauchy-schwarz-for-non-parallel-plane-vectors", lambda: [z3.Real(f"CS_{k}") for k in ("ax", "ay", "bx", "by", "La", "Lb")], cs)
+            base_touch = touch
+
+            def touch(q):
+                out = list(base_touch(q))
+                rows = [at(list(q[0])) for at in exact]
+                for a in range(len(rows)):
+                    for b in range(a + 1, len(rows)):
+                        (ax, ay, La), (bx, by, Lb) = rows[a][:3], rows[b][:3]
+                        out.append(cs(ax, ay, bx, by, La, Lb))
+                return out
+
         S.forall("edge-normal-sum-is-outward", nrm, lambda q: z3.And(prim.outward(xv(q)[0], Nv(q), xv(q)[1])), cases=cases, extra_hyps=touch)
         S.forall("edge-normal-sum-is-not-zero", nrm, lambda q: dot(Nv(q), Nv(q)) > 0, cases=cases, extra_hyps=touch)
         S.forall("result-is-the-normalised-sum", nrm, lambda q: z3.Implies(dot(Nv(q), Nv(q)) > 0, z3.And([nv(q)[c] == Nv(q)[c] / tlib.sqrt_term(z3.simplify(dot(Nv(q), Nv(q)))) for c in range(2)])), extra_hyps=touch)
@@ -881,6 +917,144 @@ def polygon_normal_scenario(prim):
 
     f.__name__ = f"{prim.name}_normal"
     f.__doc__ = "modular: _get_normal_direction under its contract; ghost: the un-normalised sum of edge normals; pre: exact boundary points. unit length and outwardness of the result follow from the three obligations and the pure normalisation lemma"
+    return f
+
+
+def triangle_normal_scenario(prim):
+    """TriangleBoundary.normal, constant corners, fixed orientation (ccw / cw), points exactly on the boundary.
+    Proof structure (the corner cases need strict Cauchy-Schwarz, so the argument is cut into small obligations):
+      A  [code]  a point exactly on edge f has its 'close to edge f' test on;
+      B  [code]  not all three tests are on at once;
+      T  [pure]  strict Cauchy-Schwarz in the plane: |p|,|q| exact, p not parallel q  =>  Lp + (p.q)/Lq > 0 ...
+      C  [pure, per (edge f, set A of active tests, f in A, |A| <= 2)] from the tests' values, the orientation, the exact
+         closed form of the active edge normals (contract of _get_normal_direction) and T: the ghost sum N of the
+         active edge normals satisfies the outward inequality of edge f;
+      assembly [pure, propositional]: A, B, C  =>  N is outward at every edge the point lies on, hence N != 0;
+      then 'result = N / |N|' [code] and the pure normalisation lemma give unit length and outwardness of the result.
+    The engine's own 'divisor non-zero' obligation of the final normalisation uses the row lemma N.N > 0."""
+    import itertools
+
+    def f(S):
+        N = S.int("N", 1)
+        h = Harness(S, prim, S.cfg + "/rows", point_rows=N)
+        fX = z3.Function("X", z3.IntSort(), z3.IntSort(), z3.RealSort())
+        raw = lambda r: [fX(zint(r[0]), z3.IntVal(c)) for c in range(2)]
+        X = S.tensor("X", [N, 2], on_access=lambda idx, v: S.ctx.axiom(z3.Implies(z3.And(zint(idx[0][0]) >= 0, zint(idx[0][0]) < zint(N)), prim.onbd(raw(idx[0]), h.vals(idx[0])))))
+        pts = S.new(POINTS, X, S.new(prim.space, "x"))
+        exact = []
+        S.use_contract(prim.bcls + "._get_normal_direction", normal_direction_summary(prim, exact))
+        bd = S.getattr(h.dom, "boundary")
+        cells = []
+        S.on_call(prim.bcls + "._add_local_normal_vector", lambda rec: cells.append(rec["normals"]))
+        S.ctx.ghost["assumed_lemmas"].pop()  # this hook only observes, it assumes nothing
+        plog = S.probe(prim.bcls + "._add_local_normal_vector")
+        nrm = S.method(bd, "normal", pts, h.params).val
+        ok = nrm.rank == 2 and nrm.shape[1].concrete() == 2 and len(cells) >= 1 and len(plog) == 3 and len(exact) == 3
+        S.ensure("shape-N-2-three-edge-tests-three-edge-normals", ok)
+        if not ok:
+            return
+        Nsum = cells[0].val
+        sgn = 1 if prim.orientation == "ccw" else -1
+
+        def pack(row):
+            """everything about the generic row `row` (a digit tuple)"""
+            q0 = tuple(row)
+            x, v = raw(q0), h.vals(q0)
+            U, V, D_ = prim.UVD(x, v)
+            # order of the calls in the code: (bary_x ~ 0, dir_3) , (bary_x + bary_y ~ 1, dir_2) , (bary_y ~ 0, dir_1)
+            bits = [tlib.isclose_term(zreal(rec["bary_coord"].at([q0, ()])), core.realval(rec["i"])) for rec in plog]
+            onedge = [U == 0, U + V == D_, V == 0]
+            # _get_normal_direction is called for dir_1, dir_2, dir_3 in this order
+            e = {2: exact[0](list(q0)), 1: exact[1](list(q0)), 0: exact[2](list(q0))}  # test index -> (dx, dy, L)
+            Nv = cols(Nsum, q0, 2)
+            out = prim.outward(x, Nv, v)  # [U == 0 => ..., V == 0 => ..., U + V == D => ...]
+            goal_of = {0: out[0], 1: out[2], 2: out[1]}
+            return x, v, D_, bits, onedge, e, Nv, goal_of
+
+        touch = lambda row: [zreal(X.val.at([tuple(row), (0,)])) == raw(tuple(row))[0]]
+        cs = lambda ax, ay, bx, by, La, Lb: z3.Implies(z3.And(La > 0, Lb > 0, La * La == ax * ax + ay * ay, Lb * Lb == bx * bx + by * by, ax * by - ay * bx != 0), z3.And(La * Lb > ax * bx + ay * by, La * Lb > -(ax * bx + ay * by)))
+        S.lemma_schema("strict-cauchy-schwarz-for-non-parallel-plane-vectors", lambda: [z3.Real(f"CS_{k}") for k in ("ax", "ay", "bx", "by", "La", "Lb")], cs)
+
+        def facts(row):
+            """the proved pieces A, B, C at row `row`, as formulas"""
+            x, v, D_, bits, onedge, e, Nv, goal_of = pack(row)
+            A = [z3.Implies(onedge[k], bits[k]) for k in range(3)]
+            B = z3.Not(z3.And(bits))
+            C = []
+            for fk in range(3):
+                for others in itertools.product([False, True], repeat=2):
+                    act = {fk: True}
+                    for k, o in zip([k for k in range(3) if k != fk], others):
+                        act[k] = o
+                    if all(act.values()):
+                        continue
+                    cfgbits = z3.And([bits[k] if act[k] else z3.Not(bits[k]) for k in range(3)])
+                    C.append((fk, act, cfgbits, z3.Implies(cfgbits, goal_of[fk])))
+            return A, B, C
+
+        # generic row for the proofs of the pieces
+        row = (z3.Int("tq0"),)
+        rng = [row[0] >= 0, row[0] < zint(N)]
+        x, v, D_, bits, onedge, e, Nv, goal_of = pack(row)
+        A, B, C = facts(row)
+        ori_fact = (D_ > 0) if sgn == 1 else (D_ < 0)
+        S.ensure("orientation-of-the-configuration", ori_fact, rng + touch(row), kind="lemma")
+        # A, B: the barycentric coordinates are explicit terms over the point and the corners: no context needed
+        for k in range(3):
+            S.ctx.oblige(f"{S.prefix}/lemma:A-point-exactly-on-edge-{k}-has-its-edge-test-on", A[k], [ori_fact] + touch(row), "lemma", pure=True)
+        S.ctx.oblige(f"{S.prefix}/lemma:B-not-all-three-edge-tests-on", B, [ori_fact] + touch(row), "lemma", pure=True)
+        # the code-level link: the ghost sum is the sum of the ACTIVE edge normals times the orientation sign
+        en = {}
+        for k in range(3):
+            dx, dy, L = e[k][:3]
+            en[k] = (dy / L, -dx / L)
+        link = [Nv[c] == z3.Sum([z3.If(bits[k], 1, 0) * sgn * en[k][c] for k in range(3)]) for c in range(2)]
+        exact_facts = [z3.And(e[k][2] > 0, e[k][2] * e[k][2] == e[k][0] * e[k][0] + e[k][1] * e[k][1]) for k in range(3)]
+        closed_form = [z3.And(e[k][2] > 0, e[k][3] * e[k][2] == e[k][1], e[k][4] * e[k][2] == -e[k][0]) for k in range(3)]
+        # contract facts of _get_normal_direction at this row (instances of the summary's ensures)
+        S.ensure("edge-normal-lengths-are-exact", z3.And(exact_facts + closed_form), rng + touch(row), kind="lemma")
+        S.ctx.oblige(f"{S.prefix}/lemma:ghost-sum-is-the-oriented-sum-of-the-active-edge-normals", z3.And(link), [ori_fact] + closed_form + touch(row), "lemma", pure=True)
+        # T: strict Cauchy-Schwarz in quotient form, and the dot-product identity of two edge normals (pure lemmas)
+        tq = lambda ax, ay, bx, by, La, Lb: z3.Implies(z3.And(La > 0, Lb > 0, La * La == ax * ax + ay * ay, Lb * Lb == bx * bx + by * by, ax * by - ay * bx != 0), z3.And(La + (ax * bx + ay * by) / Lb > 0, La - (ax * bx + ay * by) / Lb > 0))
+        S.lemma_schema("strict-cauchy-schwarz-quotient-form", lambda: [z3.Real(f"TQ_{k}") for k in ("ax", "ay", "bx", "by", "La", "Lb")], tq)
+        ident = lambda jx, jy, Lj, kx, ky: z3.Implies(Lj > 0, (jy / Lj) * ky + (-jx / Lj) * (-kx) == (jx * kx + jy * ky) / Lj)
+        S.lemma_schema("dot-product-of-an-edge-normal-with-a-rotated-direction", lambda: [z3.Real(f"ID_{k}") for k in ("jx", "jy", "Lj", "kx", "ky")], ident)
+        for (fk, act, cfgbits, stmt) in C:
+            pairs = [k for k in range(3) if act[k] and k != fk]
+            hy = [cfgbits, ori_fact] + link + [exact_facts[k] for k in range(3) if act[k]]
+            fx, fy, Lf = e[fk][:3]
+            hy.append(ident(fx, fy, Lf, fx, fy))
+            for k in pairs:
+                kx, ky, Lk = e[k][:3]
+                hy.append(tq(fx, fy, kx, ky, Lf, Lk))
+                hy.append(ident(kx, ky, Lk, fx, fy))
+            # the edge condition of goal_of[fk] ties x to the edge; D and the directions are functions of the corners
+            S.ctx.oblige(f"{S.prefix}/lemma:C-edge-{fk}-active-{''.join(str(int(act[k])) for k in range(3))}-sum-is-outward-at-that-edge", goal_of[fk], hy, "lemma", pure=True)
+        # assembly (propositional)
+        asm_h = A + [B] + [c[3] for c in C]
+        S.ctx.oblige(f"{S.prefix}/post:edge-normal-sum-is-outward", z3.And(list(goal_of.values())), asm_h, "post", pure=True)
+        # non-zero: on the boundary some edge is exact, there N . g != 0
+        S.ctx.oblige(f"{S.prefix}/post:edge-normal-sum-is-not-zero", dot(Nv, Nv) > 0, [z3.And(list(goal_of.values())), z3.Or(onedge)], "post", pure=True)
+        S.ensure("point-lies-exactly-on-some-edge", z3.Or(onedge), rng + touch(row), kind="lemma")
+
+        def nz(r):
+            Nr = cols(Nsum, tuple(r), 2)
+            dd = z3.simplify(dot(Nr, Nr))
+            return z3.And(dd > 0, tlib.sqrt_term(dd) > 0)
+
+        # the length of a non-zero vector is positive (from the defining axiom of the square root)
+        dd0 = z3.simplify(dot(Nv, Nv))
+        sq0 = tlib.sqrt_term(dd0)
+        S.ctx.oblige(f"{S.prefix}/lemma:length-of-the-non-zero-sum-is-positive", sq0 > 0, [dd0 > 0, z3.Implies(dd0 >= 0, z3.And(sq0 >= 0, sq0 * sq0 == dd0))], "lemma", pure=True)
+
+        S.ctx.ghost.setdefault("row_lemmas", []).append((core.dim_of(N), lambda r: z3.Implies(z3.And(zint(r[0]) >= 0, zint(r[0]) < zint(N)), nz(r))))
+        nv = lambda q: cols(nrm, q[0], 2)
+        Nq = lambda q: cols(Nsum, q[0], 2)
+        S.forall("result-is-the-normalised-sum", nrm, lambda q: z3.Implies(dot(Nq(q), Nq(q)) > 0, z3.And([nv(q)[c] == Nq(q)[c] / tlib.sqrt_term(z3.simplify(dot(Nq(q), Nq(q)))) for c in range(2)])), extra_hyps=lambda q: touch(q[0]))
+        S.lemma_schema("normalisation-keeps-direction-and-gives-unit-length", lambda: [z3.Real("L_a"), z3.Real("L_b"), z3.Real("L_s"), z3.Real("L_g0"), z3.Real("L_g1")], lambda a, b, s, g0, g1: z3.Implies(z3.And(s > 0, s * s == a * a + b * b), z3.And((a / s) * (a / s) + (b / s) * (b / s) == 1, z3.Implies(a * g0 + b * g1 > 0, (a / s) * g0 + (b / s) * g1 > 0), z3.Implies(a * g0 + b * g1 < 0, (a / s) * g0 + (b / s) * g1 < 0))))
+
+    f.__name__ = f"triangle_normal_{prim.orientation}"
+    f.__doc__ = triangle_normal_scenario.__doc__
     return f
 
 
@@ -922,7 +1096,12 @@ def _register():
         if prim.has_boundary:
             if prim.name in ("parallelogram", "triangle"):
                 scenario("C06", [prim.bcls + "._get_normal_direction"], configs=["any"])(normal_direction_helper_scenario(prim))
-                for ori in (("ccw", "cw") if (prim.name == "parallelogram" or __import__("os").environ.get("TPV_TRI")) else ()):
+                if prim.name == "triangle":
+                    for ori in ("ccw", "cw"):
+                        p4 = type(prim)()
+                        p4.orientation = ori
+                        scenario("C06", [prim.bcls + ".normal", prim.bcls + "._add_local_normal_vector", BDOMAIN + "._transform_input_for_normals"], configs=["const"])(triangle_normal_scenario(p4))
+                for ori in (("ccw", "cw") if prim.name == "parallelogram" else ()):
                     # triangle: the corner cases (two active edges) need a Cauchy-Schwarz argument the solvers do not
                     # find within the budget; not registered (C06 does not cover triangle normals)
                     p3 = type(prim)()
